@@ -416,8 +416,9 @@ def ad_case_coq(call, replay2=False):
     w = np.asarray(w, dtype=float)
     if w.ndim != 2:
         return None
-    return "(mk_ad %s %s %s %s %s %s %s)" % (blit(sides == "onesided"), crows(yk), frow(eig), frow(np.sqrt(eig)),
-                                             nat(passes), blit(replay2), frows(w))
+    nu_z = int(nu) if np.ndim(nu) == 0 and float(nu) == int(nu) else -1
+    return "(mk_ad %s %s %s %s %s %s (%d)%%Z %s)" % (blit(sides == "onesided"), crows(yk), frow(eig), frow(np.sqrt(eig)),
+                                                    nat(passes), blit(replay2), nu_z, frows(w))
 
 
 HEADER04 = ("From Coq Require Import QArith ZArith List Bool PrimFloat.\n"
@@ -538,7 +539,7 @@ def gen_scenario(rng, est, nmax=64, min_ch=1, max_ch=5, lead=None, layout=None):
         if r < 0.2 and nwmax >= 4:
             pass                                    # default NW = 4
         elif r < 0.75:
-            sc["NW"] = float(rng.choice([v for v in (1.5, 2.0, 2.5, 3.0, 4.0) if v <= nwmax])).hex()
+            sc["NW"] = float(rng.choice([v for v in (1.0, 1.5, 2.0, 2.5, 3.0, 4.0) if v <= nwmax])).hex()
         else:
             m = rng.randint(3, max(3, min(7, int(2 * nwmax))))
             fsv = fs_of(sc)
@@ -547,6 +548,36 @@ def gen_scenario(rng, est, nmax=64, min_ch=1, max_ch=5, lead=None, layout=None):
         sc["low_bias"] = rng.random() < 0.8
         if est == "multi_taper_psd":
             sc["jackknife"] = rng.random() < 0.15
+    return sc
+
+
+def force_few_tapers(rng, sc):
+    """adaptive=True with fewer than 3 usable tapers (NW = 1, NW = 1.5 + low_bias, or a small BW)"""
+    n = sc["shape"][-1]
+    sc.pop("BW", None)
+    sc.pop("NW", None)
+    r = rng.random()
+    if r < 0.4:
+        sc["NW"] = float(1.0).hex()
+        sc["low_bias"] = rng.random() < 0.5
+    elif r < 0.7:
+        sc["NW"] = float(1.5).hex()
+        sc["low_bias"] = True
+    else:
+        sc["BW"] = float((2 + rng.uniform(-0.3, 0.3)) * fs_of(sc) / n).hex()
+        sc["low_bias"] = rng.random() < 0.5
+    sc["adaptive"] = True
+    return sc
+
+
+def force_bw_nfft(rng, sc):
+    """the BW keyword together with NFFT in {None, N, > N}; NFFT > N large enough that BW*NFFT/Fs and
+    BW*N/Fs round to different numbers of tapers"""
+    n = sc["shape"][-1]
+    sc.pop("NW", None)
+    m = rng.randint(3, max(3, min(6, n // 3)))
+    sc["BW"] = float((m + rng.uniform(-0.3, 0.3)) * fs_of(sc) / n).hex()
+    sc["NFFT"] = rng.choice([None, n, n + n // 2, 2 * n, 2 * n + 1, n + n // 2])
     return sc
 
 
@@ -689,7 +720,13 @@ def adaptive_cases(cases, limit):
     direct = 0
     two_pass = 0
     two_pass_max = 1 if limit <= 10 else 6
-    for c in cases:
+
+    def few(c):
+        return bool(c.res["err"] is None and c.res["rec"].adapt and len(c.res["rec"].adapt[0][3]) < 3)
+
+    ordered = [c for c in cases if few(c)][:max(3, limit // 3)]
+    ordered += [c for c in cases if c not in ordered]
+    for c in ordered:
         if len(out) >= limit:
             break
         if c.res["err"] is not None or not c.res["rec"].adapt:
